@@ -78,9 +78,16 @@ Fixpoint gwire (l : list (N * gev)) : list (N * dest * bytes) :=
   | _ :: r => gwire r
   end.
 Definition notsent_b (e : event) : bool := match e with ESent _ _ => false | _ => true end.
+(* the notifications of the server-side listeners in the observable trace (newest first, as out) *)
+Definition snlog (o : list (N * event)) : list (N * event) :=
+  filter (fun p => match snd p with ESubscribed _ _ _ _ | EUnsubscribed _ _ _ => true | _ => false end) o.
+(* events a neutral step may emit: no transmission, no server-listener notification *)
+Definition plain_b (e : event) : bool :=
+  match e with ESent _ _ | ESubscribed _ _ _ _ | EUnsubscribed _ _ _ => false | _ => true end.
 
-(* two worlds that agree on everything the invariants read *)
-Record same (w w' : world) : Prop := mkSame {
+(* two worlds that agree on everything the invariants read; with b = true also on the server-listener notifications
+   (the two store callbacks that notify a server listener are steps of the weaker kind, b = false) *)
+Record sameb (b : bool) (w w' : world) : Prop := mkSame {
   sm_tmr : timers w' = timers w; sm_rdy : rdy w' = rdy w; sm_can : cancelled w' = cancelled w;
   sm_next : next_id w' = next_id w; sm_store : forall st a, inner a (get_store st w') = inner a (get_store st w);
   sm_sleep : forall t, sleep_of w' t = sleep_of w t; sm_coll : forall c, open_coll w' c = open_coll w c;
@@ -94,30 +101,55 @@ Record same (w w' : world) : Prop := mkSame {
   sm_qlog : qlog (glog w') = qlog (glog w);
   sm_sess : exists l, slog (glog w') = slog (glog w) ++ l /\ osteps (outgoing (sess w)) l = Some (outgoing (sess w'));
   sm_wire : exists m, wire (out w') = wire (out w) ++ m /\ gwire (glog w') = gwire (glog w) ++ m;
+  sm_snlog : b = true -> snlog (out w') = snlog (out w);
   sm_ready : exists l, ready w' = ready w ++ l /\ Forall (fun r => fst r = None /\ nocoll_b (snd r) = true) l }.
+
+Arguments sm_tmr {b} w w' _.
+Arguments sm_rdy {b} w w' _.
+Arguments sm_can {b} w w' _.
+Arguments sm_next {b} w w' _.
+Arguments sm_store {b} w w' _.
+Arguments sm_sleep {b} w w' _.
+Arguments sm_coll {b} w w' _.
+Arguments sm_colls {b} w w' _.
+Arguments sm_done {b} w w' _.
+Arguments sm_ne {b} w w' _.
+Arguments sm_now {b} w w' _.
+Arguments sm_cfg {b} w w' _.
+Arguments sm_collectors {b} w w' _.
+Arguments sm_queues {b} w w' _.
+Arguments sm_qlog {b} w w' _.
+Arguments sm_sess {b} w w' _.
+Arguments sm_wire {b} w w' _.
+Arguments sm_snlog {b} w w' _.
+Arguments sm_ready {b} w w' _.
+Notation same := (sameb true).
 
 Lemma osteps_app o l1 l2 : osteps o (l1 ++ l2) = match osteps o l1 with Some o' => osteps o' l2 | None => None end.
 Proof.
   revert o. induction l1 as [|[d v] l1 IH]; intros o; cbn [app osteps]; [reflexivity|].
   destruct (assign_outgoing (mkSess [] o) d) as [v' s']. destruct (fi_eqb v v'); [apply IH|reflexivity].
 Qed.
-Lemma same_refl w : same w w.
+Lemma same_refl {b} w : sameb b w w.
 Proof. constructor; try reflexivity; exists []; rewrite ?app_nil_r; split; first [reflexivity|constructor]. Qed.
-Lemma same_trans a b c : same a b -> same b c -> same a c.
+Lemma same_weak {b} w w' : sameb b w w' -> sameb false w w'.
+Proof. intros [A1 A2 A3 A4 A5 A6 A7 A8 A9 A10 A11 Ac Ad Ae Af Ag Aw _ A12]. constructor; try assumption. discriminate. Qed.
+Lemma same_trans {b} x y z : sameb b x y -> sameb b y z -> sameb b x z.
 Proof.
-  intros [A1 A2 A3 A4 A5 A6 A7 A8 A9 A10 A11 Ac Ad Ae Af (m1 & As1 & As2) (n1 & Aw1 & Aw2) (l1 & A12 & A13)]
-         [B1 B2 B3 B4 B5 B6 B7 B8 B9 B10 B11 Bc Bd Be Bf (m2 & Bs1 & Bs2) (n2 & Bw1 & Bw2) (l2 & B12 & B13)].
+  intros [A1 A2 A3 A4 A5 A6 A7 A8 A9 A10 A11 Ac Ad Ae Af (m1 & As1 & As2) (n1 & Aw1 & Aw2) An (l1 & A12 & A13)]
+         [B1 B2 B3 B4 B5 B6 B7 B8 B9 B10 B11 Bc Bd Be Bf (m2 & Bs1 & Bs2) (n2 & Bw1 & Bw2) Bn (l2 & B12 & B13)].
   constructor; try congruence; try (intros; rewrite ?B5, ?B6, ?B7, ?B9; auto; fail).
   - exists (m1 ++ m2). rewrite Bs1, As1, app_assoc. split; [reflexivity|]. rewrite osteps_app, As2. exact Bs2.
   - exists (n1 ++ n2). rewrite Bw1, Aw1, Bw2, Aw2, !app_assoc. split; reflexivity.
+  - intros Hb. rewrite (Bn Hb). apply An, Hb.
   - exists (l1 ++ l2). rewrite B12, A12, app_assoc. split; [reflexivity|apply Forall_app; auto].
 Qed.
-Lemma same_tided w w' : same w w' -> tided w' = tided w.
-Proof. intros [A1 A2 _ _ _ _ _ _ _ _ _ _]. unfold tided, tmr. rewrite A1, A2. reflexivity. Qed.
+Lemma same_tided {b} w w' : sameb b w w' -> tided w' = tided w.
+Proof. intros Hs. unfold tided, tmr. rewrite (sm_tmr _ _ Hs), (sm_rdy _ _ Hs). reflexivity. Qed.
 
-Lemma same_G X w w' : same w w' -> GP X w -> GP X w'.
+Lemma same_G {b} X w w' : sameb b w w' -> GP X w -> GP X w'.
 Proof.
-  intros Hs [H1 H2 H3 H4 H5 H6 H7 H8 H9]. pose proof (same_tided _ _ Hs) as Ht. destruct Hs as [A1 A2 A3 A4 A5 A6 A7 A8 A9 A10 A11 Ac Ad Ae Af Ag Aw A12].
+  intros Hs [H1 H2 H3 H4 H5 H6 H7 H8 H9]. pose proof (same_tided _ _ Hs) as Ht. destruct Hs as [A1 A2 A3 A4 A5 A6 A7 A8 A9 A10 A11 Ac Ad Ae Af Ag Aw An A12].
   constructor; rewrite ?Ht, ?A3, ?A4; try assumption.
   - intros st a k tid. rewrite A5. apply H3.
   - intros st a. rewrite A5. apply H4.
@@ -129,6 +161,9 @@ Proof.
 Qed.
 
 Definition neutral (f : world -> world) : Prop := forall w, same w (f w).
+Definition neutral0 (f : world -> world) : Prop := forall w, sameb false w (f w).
+Lemma neutral_0 f : neutral f -> neutral0 f.
+Proof. intros H w. eapply same_weak, H. Qed.
 Definition keeps (f : world -> world) : Prop := forall X w, GP X w -> GP X (f w).
 Lemma neutral_keeps f : neutral f -> keeps f.
 Proof. intros H X w Hg. eapply same_G; eauto. Qed.
@@ -146,7 +181,9 @@ Proof. intros H. induction l as [|x l IH]; intros X w Hg; cbn [fold_left]; [exac
 
 (* ------------------------------------------------------------------ neutral primitives *)
 Ltac triv_same := constructor; intros; try reflexivity; exists []; rewrite ?app_nil_r; split; first [reflexivity|constructor].
-Lemma n_emit e : notsent_b e = true -> neutral (emit e). Proof. intros H w. destruct e; try discriminate; triv_same. Qed.
+Lemma n_emit e : plain_b e = true -> neutral (emit e). Proof. intros H w. destruct e; try discriminate; triv_same. Qed.
+Lemma n0_emit e : notsent_b e = true -> neutral0 (emit e).
+Proof. intros H w. destruct e; try discriminate; constructor; intros; try reflexivity; try discriminate; exists []; rewrite ?app_nil_r; split; first [reflexivity|constructor]. Qed.
 (* the session storage may change as long as the outgoing table does not (received messages only touch the incoming one) *)
 Lemma n_set_sess_in s w : outgoing s = outgoing (sess w) -> same w (set_sess s w).
 Proof. intros H. constructor; intros; try reflexivity; exists []; rewrite ?app_nil_r; split; first [reflexivity|constructor|cbn [osteps sess set_sess]; rewrite H; reflexivity]. Qed.
@@ -412,14 +449,15 @@ Proof.
   eapply same_trans; [exact H1|]. apply (neutral_fold (fun acc l => f l s a acc)). intros l. apply Hf.
 Qed.
 
-Lemma n_client_subscribed i sub a : neutral (fun w => fst (client_subscribed i sub a w)).
-Proof. intros w. unfold client_subscribed. destruct (aget N.eqb i (insts w)); cbn [fst]; [apply n_emit; reflexivity|apply same_refl]. Qed.
+(* the two steps that notify a server listener: neutral only in the weaker sense *)
+Lemma n_client_subscribed i sub a : neutral0 (fun w => fst (client_subscribed i sub a w)).
+Proof. intros w. unfold client_subscribed. destruct (aget N.eqb i (insts w)); cbn [fst]; [apply n0_emit; reflexivity|apply same_refl]. Qed.
 
-Lemma n_store_callback st k a : neutral (store_callback st k a).
+Lemma n_store_callback st k a : neutral0 (store_callback st k a).
 Proof.
   intros w. destruct st as [|i], k as [s|sub]; cbn [store_callback]; try apply same_refl.
-  - apply n_notify_service. intros l. apply n_listener_stopped.
-  - apply n_emit; reflexivity.
+  - apply neutral_0. apply n_notify_service. intros l. apply n_listener_stopped.
+  - apply n0_emit; reflexivity.
 Qed.
 
 Lemma n_found_iter f g : (forall s a, neutral (g s a)) -> neutral (found_iter f g).
